@@ -508,7 +508,7 @@ func cmdCheck(cfg Config, prop, tier string) int {
 		rp := writeReplay(cfg, prop, name, payload)
 		suffix := " no-failing-input-found"
 		if hasCex {
-			if ok := tryReplay(cfg, p, prop, name, s, payload, rp); ok {
+			if ok := tryReplay(cfg, p, findExec(pr, s.worst), prop, name, s, payload, rp); ok {
 				suffix = ""
 			}
 		}
@@ -770,17 +770,21 @@ func cmdReplay(cfg Config, prop, path string) int {
 	}
 	if t, ok := payload["go_test"].(string); ok {
 		fmt.Println("generated test:\n" + t)
+		if fnKey, ok := payload["function"].(string); ok {
+			if out, panicked, err := runReplayTest(cfg, fnKey, t); err == nil {
+				fmt.Println("replay on the real code (go test -overlay):\n" + out)
+				if !panicked {
+					fmt.Println("the recorded inputs no longer make the real code panic")
+					return 0
+				}
+			}
+		}
 	}
 	if prop == "" {
 		prop, _ = payload["property"].(string)
 	}
 	fmt.Printf("VIOLATION property=%s replay=%s\n", prop, path)
 	return 1
-}
-
-// tryReplay: concrete replay of a counterexample on the real code (see replay.go).
-func tryReplay(cfg Config, p *Program, prop, name string, s *oblSummary, payload map[string]interface{}, path string) bool {
-	return false
 }
 
 // goSpawnReport: the spawn sweep (C13). Every `go` statement in the non-test code of the repository starts
